@@ -43,6 +43,7 @@ impl Profile {
 			"C02" => Profile { allow_async: true, allow_deferred: true, nodes: 3, multi_hop: true, allow_restart: true, parallel: true, pay_workload: true, ..base },
 			"C03" => Profile { allow_async: true, nodes: 3, multi_hop: true, allow_restart: true, parallel: true, pay_workload: true, ..base },
 			"C04" => Profile { allow_async: true, nodes: 3, multi_hop: true, parallel: true, pay_workload: true, ..base },
+			"C12" => Profile { allow_async: true, allow_deferred: true, nodes: 3, multi_hop: true, allow_restart: true, allow_force_close: true, parallel: true, pay_workload: true, ..base },
 			"C10" => Profile { allow_async: true, allow_deferred: true, nodes: 3, multi_hop: true, allow_restart: true, persist_manager_often: true, ..base },
 			_ => base,
 		}
